@@ -144,6 +144,34 @@ func withSpare(m *pb.QuoteV4, spare int) {
 		}
 	}
 	fix(reflect.ValueOf(m))
+	// the list of RTMRs itself gets spare room behind its entries (a caller may have built it with make([][]byte, 0, 8)):
+	// sentinel entries sit there
+	if b := m.GetTdQuoteBody(); b != nil && b.Rtmrs != nil {
+		outer := make([][]byte, len(b.Rtmrs), len(b.Rtmrs)+4)
+		copy(outer, b.Rtmrs)
+		full := outer[:cap(outer)]
+		for i := len(outer); i < len(full); i++ {
+			full[i] = rtmrSentinel
+		}
+		b.Rtmrs = outer
+	}
+}
+
+var rtmrSentinel = []byte("sentinel entry behind the caller's RTMR list")
+
+// spareRtmrsTouched reports whether an entry behind the end of the message's RTMR list is no longer the sentinel.
+func spareRtmrsTouched(m *pb.QuoteV4) string {
+	b := m.GetTdQuoteBody()
+	if b == nil || cap(b.Rtmrs) == len(b.Rtmrs) {
+		return ""
+	}
+	full := b.Rtmrs[:cap(b.Rtmrs)]
+	for i := len(b.Rtmrs); i < len(full); i++ {
+		if len(full[i]) != len(rtmrSentinel) || (len(full[i]) > 0 && &full[i][0] != &rtmrSentinel[0]) {
+			return fmt.Sprintf("entry %d behind the end of the caller's RTMR list (len %d, cap %d) was overwritten with a %d-byte slice", i, len(b.Rtmrs), len(full), len(full[i]))
+		}
+	}
+	return ""
 }
 
 // apiCalls are the read-only operations of the property.
@@ -312,7 +340,7 @@ func c16(x *mon.Ctx) {
 			x.Broken("c16 subject unparsable")
 			return
 		}
-		for _, form := range []string{"parsed", "built-with-spare", "wire"} {
+		for _, form := range []string{"parsed", "built-with-spare", "wire", "built-sizes-unset"} {
 			for _, call := range apiCalls16 {
 				raw := make([]byte, len(s.c.Quote), len(s.c.Quote)+128)
 				copy(raw, s.c.Quote)
@@ -325,6 +353,13 @@ func c16(x *mon.Ctx) {
 					m = mon.MessageFor("parsed", s.c.Quote)
 				case "wire":
 					m = mon.MessageFor("wire", s.c.Quote)
+				case "built-sizes-unset":
+					// a hand-built message that leaves the two derived size fields at zero (the checks never read them)
+					m = mon.BuildMessage(q)
+					m.SignedDataSize = 0
+					if cd := m.GetSignedData().GetCertificationData(); cd != nil {
+						cd.Size = 0
+					}
 				default:
 					m = mon.BuildMessage(q)
 					withSpare(m, 64)
@@ -347,6 +382,8 @@ func c16(x *mon.Ctx) {
 					prob = "panics: " + pv + "\n" + st
 				} else if d := changed(regs); d != "" {
 					prob = call.name + " wrote to memory reachable from its inputs: " + d
+				} else if d := spareRtmrsTouched(m); d != "" {
+					prob = call.name + " wrote behind the caller's RTMR list: " + d
 				} else if !proto.Equal(m, keep) {
 					prob = call.name + " changed the quote message"
 				} else if !reflect.DeepEqual(po, keepPo) {
